@@ -85,7 +85,7 @@ def run_case(case, ctx):
 def stages(tier):
     n = 1 if tier == "quick" else 15
     return [
-        HypStage("constructive", lambda: gens.input_case(gens.opts(long_strings=True, null_structs=True, bits_char=True, bits_odd=True, wide_bits=True)), examples=(1200 if tier == "quick" else 6000), shards=8 if tier == "quick" else 16),
+        HypStage("constructive", lambda: gens.input_case(gens.opts(long_strings=True, null_structs=True, multidim_dyn=True, bits_char=True, bits_odd=True, wide_bits=True)), examples=(1200 if tier == "quick" else 6000), shards=8 if tier == "quick" else 16),
         HypStage("raw", raw_case, examples=(600 if tier == "quick" else 4000), shards=4 if tier == "quick" else 8),
     ]
 
